@@ -576,3 +576,19 @@ _ADD = {
 }
 for _k, _v in _ADD.items():
     RULE[_k] = RULE[_k] + _v
+
+
+# ---- additions of the sixth seed round (see DESIGN.md 11.5) -------------------------------------------------------
+RULE["C01"] += " One reply in twelve has parameters without a JSON encoding (NaN): refused, reported to the handler, nothing written."
+RULE["C02"] += (" The service arm also provokes the service's own error replies (unknown interface / method / built-in method, the four helpers) with "
+                "hostile strings (NUL, BEL, VT, ESC, DEL, U+E0001, U+10FFFD, escape look-alikes); every other concurrent case starts each connection with a "
+                "reply attempt that cannot be encoded.")
+RULE["C07"] += " The one file written must be a non-test source of its package for the go tool on this platform (interface names ending in -test, -GOOS, -GOARCH)."
+RULE["C09"] += " Also well-formed nests of 1-3000 levels through every constructor pair, in every member position."
+RULE["C10"] += (" Plus 36-160 (thorough 400) connections on ONE service, most of which the service has to end (frame that is not a call, failing handler, "
+                "ill-formed JSON, abort inside a frame, peer gone while a 300 KB reply is written), interleaved with well-behaved ones.")
+RULE["C13"] += " For every other registration the dispatcher changes the text its getter returns after RegisterInterface has returned; the registered text must be reported."
+RULE["C14"] += " Kernel-listener variant: every cycle preceded by Bind + Shutdown on the same address without serving."
+RULE["C17"] += (" Service cells also with a serving context that reaches its deadline; after every interrupted Send / Upgrade-send / raw Write the peer drains and a "
+                "write under a live context on the same connection must succeed and arrive.")
+RULE["C18"] += " The upgrade frame itself, and frames preceding the raw data, can be 4000-70000 bytes (larger than the reader's buffer, tail coalesced with what follows)."
